@@ -59,8 +59,9 @@ Qed.
 (* ---- JSON ---- *)
 Lemma json_chars_app a b : json_chars a -> json_chars b -> json_chars (a ++ b).
 Proof.
-  induction 1 as [|x r H1 H2 H3 H4 H5 IH|c r Hc H5 IH|p q u w r Hp Hq Hu Hw H5 IH]; intros Hb; cbn [app].
+  induction 1 as [|w0 r0 Hw0 H5 IH|x r H1 H2 H3 H4 H5 IH|c r Hc H5 IH|p q u w r Hp Hq Hu Hw H5 IH]; intros Hb; cbn [app].
   - exact Hb.
+  - rewrite <- app_assoc. apply jc_utf8; auto.
   - apply jc_plain; auto.
   - apply jc_esc; auto.
   - apply jc_u; auto.
